@@ -66,6 +66,7 @@ def run(ctx):
         rep.check(verdict is None, "D1b-MODE-UNCONDITIONAL", where(f), "ldmxcsr",
                   "no emitted branch skips the ldmxcsr%s" % (" (one skip, taken only when FTZ and DAZ are both set already)" if skipping else ""),
                   "%s: %s" % (fn, verdict), line=ld[0].line)
+    avx_dest_defined_before_read(db, rep, "D9-AVX-DEST-DEFINED")
     # ---- D2 ------------------------------------------------------------------
     rows = {r["name"]: r for r in init_rows(db.tu("orcopcodes-sys").global_("opcodes")) if isinstance(r, dict) and r.get("name")}
     FLOAT = db.macro_int("ORC_STATIC_OPCODE_FLOAT_SRC") | db.macro_int("ORC_STATIC_OPCODE_FLOAT_DEST")
@@ -307,3 +308,82 @@ def d7_operand_arity(db, rep):
                       line=bad[0][1] if bad else f.line)
     if n < 300:
         raise AnalysisBroken("only %d rule registrations judged" % n)
+
+
+def avx_dest_defined_before_read(db, rep, rule):
+    """The AVX rules are three-operand: every instruction names its two sources and its destination.  Unlike the two-operand
+    SSE rules they may not assume that the destination register already holds the first source (the register allocator makes
+    the two coincide only when the source dies at this instruction).  In every rule function of orcrules-avx.c each register
+    operand read by an emitted instruction must be defined: it is a source of the Orc instruction (initialised from
+    src_args[..].alloc), a constant register, or it has been written by an emitted instruction that dominates the read
+    (`pxor r, r, r` / `pcmpeq r, r, r` define r).  A rule that reads `dest`, or a scratch register, before writing it computes
+    with whatever the register held: correct only while the allocator happens to chain source and destination."""
+    from facts import init_rows
+    tu = db.tu("orcrules-avx")
+    rows = init_rows(db.tu("orcx86insn").global_("orc_x86_opcodes"))
+    SIG = {"orc_vex_emit_cpuinsn_size": ((3, 4), 5), "orc_vex_emit_cpuinsn_imm": ((3, 4), 5), "orc_vex_emit_cpuinsn_load_memoffset": ((6,), 7),
+           "orc_vex_emit_cpuinsn_load_memindex": ((), 8)}
+    SELF = ("pxor", "pcmpeqb", "pcmpeqw", "pcmpeqd", "pcmpeqq", "xorps", "xorpd", "psubb", "psubw", "psubd", "psubq")
+    n = 0
+    for f in tu.main_functions():
+        if "_rule_" not in f.name:
+            continue
+        kind = {}
+        for vd in f.walk():
+            if vd.k == "VarDecl" and vd.c and vd.c[0] is not None:
+                t = unparse(vd.c[0])
+                if "dest_args" in t and ".alloc" in t:
+                    kind[vd.name] = "dest"
+                elif "orc_compiler_get_temp_reg" in t:
+                    kind[vd.name] = "temp"
+                elif "src_args" in t and ".alloc" in t:
+                    kind[vd.name] = "src"
+        if not any(v in ("dest", "temp") for v in kind.values()):
+            continue
+        if f.name.startswith("avx_rule_acc"):
+            continue                        # accumulating opcodes: the destination IS the running sum (read-modify-write by definition)
+        from flow import path_to
+        allcalls = list({c.id: c for c in f.calls()}.values())
+        calls = [c for c in allcalls if c.name in SIG]
+
+        def defines(e, reg):
+            if e.k != "CallExpr" or not e.name:
+                return False
+            if e.name in SIG:
+                di = SIG[e.name][1]
+                wd = strip_casts(e.args()[di]) if di < len(e.args()) else None
+                return wd is not None and wd.k == "DeclRefExpr" and wd.name == reg
+            # any other emitter that is handed the register (4-operand blends, broadcast, the mov helpers, constant loads): taken
+            # as defining it - their operand roles are not modelled, and a missed definition would be a false alarm
+            if "emit" in e.name or "load_constant" in e.name or "_mov_" in e.name:
+                return any(strip_casts(x) is not None and strip_casts(x).k == "DeclRefExpr" and strip_casts(x).name == reg for x in e.args())
+            return False
+        bad = None
+        for c in calls:
+            a = c.args()
+            srcs, di = SIG[c.name]
+            rv = strip_casts(a[1]).v
+            rname = rows[rv]["name"] if rv is not None and 0 <= rv < len(rows) else None
+            ops = [strip_casts(a[i]) for i in srcs if i < len(a)]
+            names = [o.name for o in ops if o is not None and o.k == "DeclRefExpr"]
+            if rname in SELF and len(names) == 2 and names[0] == names[1]:
+                continue                    # zeroing / all-ones idiom: defines the register
+            for o in ops:
+                if o is None or o.k != "DeclRefExpr" or kind.get(o.name) not in ("dest", "temp"):
+                    continue
+                wit = path_to(f, c, lambda e, r=o.name: defines(e, r))
+                if wit is not None and bad is None:
+                    bad = (c, o.name, rname, kind[o.name])
+        n += 1
+        rep.saw(f)
+        rep.check(bad is None, rule, where(f), f.name,
+                  "every destination / scratch register is written before an emitted instruction reads it",
+                  "%s emits `v%s` reading `%s` (the %s register) before any emitted instruction has written it (line %s): unlike the two-operand SSE rule "
+                  "this was ported from, the three-operand form does not start with the first source in the destination - the result is right only when "
+                  "the register allocator happens to give source and destination the same register (the source dies here), and garbage when the source "
+                  "is used again later" % (f.name, bad[2] if bad else "", bad[1] if bad else "", {"dest": "destination", "temp": "scratch"}.get(bad[3] if bad else "", ""),
+                                           bad[0].line if bad else "?"), line=bad[0].line if bad else None)
+    if n < 40:
+        raise AnalysisBroken("only %d AVX rule functions with destination/scratch registers found" % n)
+    return n
+
